@@ -171,6 +171,32 @@ def run_single_program(prog: dict) -> dict:
     return run_program_values(expand_allsensors(prog))
 
 
+def expand_hidden_settings(prog: dict) -> dict:
+    """HIDDENWRITES -> write_setting(id, 1) for every setting id that was listed right after read_device_info but is no longer
+    listed at this point (the inverter refused its registers): such an id is unknown now, so nothing may be written."""
+    if not any(c.get("api") == "HIDDENWRITES" for c in prog["calls"]):
+        return prog
+    from .inv_driver import run_program
+    k = [i for i, c in enumerate(prog["calls"]) if c.get("api") == "HIDDENWRITES"][0]
+    dry = dict(prog)
+    dry["calls"] = [c for c in prog["calls"][:1]] + [{"api": "settings"}] + [c for c in prog["calls"][1:k]] + [{"api": "settings"}]
+    tr = run_program(dry)
+    lists = [[x["s"] for x in ev["val"]["v"]] for ev in tr["ev"] if ev["e"] == "RET" and ev.get("api") == "settings" and ev.get("ok")]
+    gone = [i for i in lists[0] if i not in set(lists[-1])] if len(lists) >= 2 else []
+    calls = list(prog["calls"][:k])
+    for sid in gone:
+        calls.append({"api": "write_setting", "args": [sid, 1],
+                      "span": {"guard": True, "documented": True, "decode": False, "detail": {"arg": "no longer listed: " + sid}}})
+    calls += prog["calls"][k + 1:]
+    out = dict(prog)
+    out["calls"] = calls
+    return out
+
+
+def run_readonly_program(prog: dict) -> dict:
+    return run_program_values(expand_hidden_settings(prog))
+
+
 def gen_readonly_programs(tier: str, rnd: random.Random) -> list[dict]:
     """C18: the monitoring API on every family, and setters with arguments around their valid intervals."""
     quick = tier == "quick"
@@ -248,6 +274,15 @@ def gen_readonly_programs(tier: str, rnd: random.Random) -> list[dict]:
                         c.setdefault("span", {"decode": False})
                         c["span"]["detail"] = {"state": f"{name} work_mode={wm} eco1={prior} unset={default:#x}"}
                     progs.append({"inv": [spec], "calls": calls})
+    # a setting whose registers the inverter refuses disappears from settings(): from then on its id is an unknown id
+    for tag, port, ranges in (("ETU", 8899, [[45350, 45360], [47510, 47514]]), ("ETT", 502, [[47589, 47594], [45350, 45360]]),
+                              ("EHU", 8899, [[45000, 46999]]), ("ETU", 8899, [[47500, 47999]])):
+        sim = {"regs": device_regs("ET", serial_for(tag), 10000), "refused": ranges}
+        sim["regs"].update({47000: 1})
+        calls = [{"api": "read_device_info"}, {"api": "read_settings_data", "span": {"decode": False}},
+                 {"api": "get_grid_export_limit"}, {"api": "get_ongrid_battery_dod"}, {"api": "HIDDENWRITES"},
+                 {"api": "read_settings_data", "span": {"decode": False}}]
+        progs.append({"inv": [{"family": "ET", "port": port, "sim": sim, "retries": 0}], "calls": calls})
     # connect / discover are monitoring calls too
     for fam, tag in (("ET", "ETU"), ("DT", "DTU"), ("ES", "ESU")):
         serial = serial_for(tag)
@@ -299,7 +334,7 @@ def check(prop: str, tier: str, seed: int) -> int:
         traces = engine.parallel_map("harness.checks_inverter", "run_single_program", progs, procs=16, chunk=1)
     else:
         progs = gen_readonly_programs(tier, rnd) + gen_config_programs("quick", rnd)[:: (40 if tier == "quick" else 4)]
-        traces = engine.parallel_map("harness.checks_decode", "run_program_values", progs, procs=16, chunk=2)
+        traces = engine.parallel_map("harness.checks_inverter", "run_readonly_program", progs, procs=16, chunk=2)
     for tr in traces:
         if tr["status"] != "ok":
             raise engine.MachineryError("program did not finish: " + tr["status"])
